@@ -26,6 +26,9 @@ func (it *Interp) leaf(fr *Frame, x *ssa.Call, fn *ssa.Function, args []Value) V
 				taint = true
 			}
 		}
+		if taint {
+			it.TaintedLeafCalls++
+		}
 		if c := ptrCell(args[0]); c != nil {
 			it.smash(c, Top{Taint: taint, Why: "field value"})
 		}
